@@ -87,4 +87,5 @@ def main() -> None:
                 net.fail("parse-differs", f"a delimited stream with a {len(payload)}-byte first frame does not read back as delimited", {"frame_bytes": len(payload)}, got)
     net.finish("bounded", f"stream names of every length 0..{top-1} (options row length sweeps through 10 and 128) x both framings x frame sizes {{1,250}}; reference-encoder streams with 0..2 leading empty frames",
                "each case = (options-row length, framing, frame size), one header of the enumerated header domain, or one frame size on a varint boundary")
-main()
+if __name__ == "__main__":
+    main()
